@@ -778,10 +778,28 @@ func childSelectedByNamespace(c *cx, id string, in func(f *eng.Fn) bool) int {
 			for _, la := range locals {
 				subj := strings.TrimPrefix(la[:strings.Index(la, ".Name.Local,")], "eq(")
 				n++
-				okd, _ := g.DominatedAny(pt, []string{
-					"eq(" + subj + ".Name.Space,*)", "*eq(" + subj + ".Name.Space,*", "eq(" + subj + ".Name,*)", "eq(*," + subj + ".Name)",
-					"stanza.Is(" + subj + ".Name,*)", "*" + subj + ".Name.Space*",
-				})
+				okd, _ := g.DominatedAny(pt, []string{"eq(" + subj + ".Name,*)", "eq(*," + subj + ".Name)", "stanza.Is(" + subj + ".Name,*)"})
+				if !okd {
+					// an equality with a namespace, or a disjunction of such equalities
+					// (a prefix or substring test of the namespace admits application
+					// namespaces: jabber:x:data, jabber:iq:roster, ...)
+					for _, a := range g.DominatingAtoms(pt, "*"+subj+".Name.Space*") {
+						body := a
+						if strings.HasPrefix(a, "or(") && strings.HasSuffix(a, ")") {
+							body = a[3 : len(a)-1]
+						}
+						all := true
+						for _, d := range strings.Split(body, " | ") {
+							pre := "eq(" + subj + ".Name.Space,"
+							if !(strings.HasPrefix(d, pre) && strings.HasSuffix(d, ")") && !strings.Contains(d[len(pre):], "(")) {
+								all = false
+							}
+						}
+						if all {
+							okd = true
+						}
+					}
+				}
 				c.r.Check(id, f, "child selected by local name "+la[strings.Index(la, ".Name.Local,")+12:len(la)-1], "E-dec: a child that is decoded because of its local name is also tested for its namespace (or whole name) on every path to the decode", cl.Pos(), okd, "only the local name is tested: a child with that local name in any other namespace is decoded as the protocol element")
 			}
 		}
@@ -897,4 +915,159 @@ func rawTokensResolveXMLPrefix(c *cx, id string) {
 		c.r.Check(id, f, "raw tokens: reserved xml prefix resolved", "T: a RawToken-to-Token adaptor maps the attribute prefix xml to the XML namespace (xml:lang stays xml:lang when the token is encoded again)", f.Pos(), ok, "attributes with the reserved prefix are handed on as {xml}lang: the encoder declares a namespace called \"xml\" and writes _xml:lang")
 	}
 	c.r.Floor(id, "RawToken adaptors", n, 1)
+}
+
+// lossyDecodeStores (E-taint, decode side; C13.17/C19.26): what a decoder
+// stores into its receiver (a field, a map entry or its key, a list element) is
+// the text as it was decoded: no string-rewriting function (trim, case
+// folding, replace) is applied on the way. The encoders write the stored value
+// back unchanged, so a case-folded map key or a trimmed text makes the decoded
+// value differ from the one that was encoded (language tags en-GB, zh-Hant).
+func lossyDecodeStores(c *cx, id string, in func(f *eng.Fn) bool) int {
+	n := 0
+	for _, f := range c.allFns() {
+		if f.Body == nil || f.Obj == nil || !in(f) || f.Sig() == nil || f.Sig().Recv() == nil {
+			continue
+		}
+		switch f.Obj.Name() {
+		case "UnmarshalXML", "UnmarshalXMLAttr", "UnmarshalText":
+		default:
+			continue
+		}
+		lossyIn := func(e ast.Expr) string {
+			found := ""
+			if e == nil {
+				return ""
+			}
+			ast.Inspect(e, func(x ast.Node) bool {
+				if cl, ok := x.(*ast.CallExpr); ok && (lossyFuncs[f.CalleeID(cl)] || lossyParsers[f.CalleeID(cl)]) && found == "" {
+					found = f.CalleeID(cl)
+				}
+				return found == ""
+			})
+			return found
+		}
+		for _, w := range f.Writes() {
+			if !strings.HasPrefix(f.Norm(w.LHS, nil), "recv") {
+				continue
+			}
+			rhs := w.RHS
+			if rhs == nil {
+				// tuple assignment: v, err = parse(x)
+				if as, ok := w.Stmt.(*ast.AssignStmt); ok && len(as.Rhs) == 1 {
+					rhs = as.Rhs[0]
+				}
+			}
+			if rhs == nil {
+				continue
+			}
+			n++
+			bad := lossyIn(rhs)
+			if bad == "" {
+				// the index / key of the store
+				ast.Inspect(w.LHS, func(x ast.Node) bool {
+					if ix, ok := x.(*ast.IndexExpr); ok && bad == "" {
+						bad = lossyIn(ix.Index)
+					}
+					return bad == ""
+				})
+			}
+			c.r.Check(id, f, "store into "+f.Norm(w.LHS, nil), "E-taint: a decoder stores the decoded text as it is (no trim, case folding or replace between the decoded value and the receiver)", w.Stmt.Pos(), bad == "", "the stored value or its key passes through "+bad+": the encoders write it back changed and the decoded value is not the one that was encoded")
+		}
+	}
+	return n
+}
+
+// formattedIntsKeepTheirRange (E-trunc, encode side; C19.27/C13.19): an
+// integer that is formatted for the wire (strconv.Itoa / FormatInt /
+// FormatUint, fmt verbs are covered by the formatted-write rule) is formatted
+// at its own range: the argument is not a conversion that narrows the value or
+// changes its signedness. strconv.Itoa(int(n)) of a uint64 writes 2^63..2^64-1
+// as negative numbers, which the type's own decoder (ParseUint) rejects.
+func formattedIntsKeepTheirRange(c *cx, id string, in func(f *eng.Fn) bool) int {
+	n := 0
+	bits := func(b *types.Basic) (int, bool, bool) { // width, signed, ok
+		switch b.Kind() {
+		case types.Int8:
+			return 8, true, true
+		case types.Int16:
+			return 16, true, true
+		case types.Int32:
+			return 32, true, true
+		case types.Int64:
+			return 64, true, true
+		case types.Int:
+			return 64, true, true
+		case types.Uint8:
+			return 8, false, true
+		case types.Uint16:
+			return 16, false, true
+		case types.Uint32:
+			return 32, false, true
+		case types.Uint64, types.Uint, types.Uintptr:
+			return 64, false, true
+		}
+		return 0, false, false
+	}
+	for _, f := range c.allFns() {
+		if f.Body == nil || !in(f) {
+			continue
+		}
+		for _, cl := range f.AllCalls() {
+			switch f.CalleeID(cl) {
+			case "strconv.Itoa", "strconv.FormatInt", "strconv.FormatUint", "strconv.AppendInt", "strconv.AppendUint":
+			default:
+				continue
+			}
+			var arg ast.Expr
+			switch f.CalleeID(cl) {
+			case "strconv.AppendInt", "strconv.AppendUint":
+				arg = cl.Args[1]
+			default:
+				arg = cl.Args[0]
+			}
+			n++
+			bad := ""
+			// peel conversions, remembering the narrowest range passed through
+			e := ast.Unparen(arg)
+			for depth := 0; depth < 4; depth++ {
+				cv, ok := e.(*ast.CallExpr)
+				if !ok || len(cv.Args) != 1 {
+					break
+				}
+				tv, isConv := f.Info().Types[cv.Fun]
+				if !isConv || !tv.IsType() {
+					break
+				}
+				to, ok1 := tv.Type.Underlying().(*types.Basic)
+				from, ok2 := f.Info().TypeOf(cv.Args[0]).Underlying().(*types.Basic)
+				if !ok1 || !ok2 || f.ConstVal(cv.Args[0]) != nil {
+					break
+				}
+				tw, ts, okT := bits(to)
+				fw, fs, okF := bits(from)
+				if okT && okF {
+					switch {
+					case tw < fw:
+						bad = "the value is narrowed from " + from.Name() + " to " + to.Name() + " before it is formatted"
+					case ts && !fs && tw <= fw:
+						bad = "an unsigned " + from.Name() + " is converted to the signed " + to.Name() + " of the same width before it is formatted: values above the signed maximum are written as negative numbers"
+					case !ts && fs:
+						bad = "a signed " + from.Name() + " is converted to the unsigned " + to.Name() + " before it is formatted: negative values are written as huge numbers"
+					}
+				}
+				e = ast.Unparen(cv.Args[0])
+			}
+			c.r.Check(id, f, "formatted integer "+f.Norm(arg, nil), "E-trunc: an integer is formatted at its own width and signedness", cl.Pos(), bad == "", bad)
+		}
+	}
+	return n
+}
+
+// lossyParsers parse only a part of what the matching String method writes:
+// url.ParseRequestURI "assumes that the URL was received in an HTTP request"
+// and does not split off a #fragment (it ends up, escaped, in the path or
+// query), whereas the encoders write URL.String().
+var lossyParsers = map[string]bool{
+	"net/url.ParseRequestURI": true,
 }
